@@ -9,6 +9,14 @@ def decode(string):
 validate_encoded = decode
 
 def validate_decoded(alignment):
+  if not isinstance(alignment, gfapy.CIGAR) and \
+     not isinstance(alignment, gfapy.Trace) and \
+     not isinstance(alignment, gfapy.Placeholder):
+    raise gfapy.TypeError(
+      "the class {} is incompatible with the datatype\n"
+      .format(alignment.__class__.__name__)+
+      "(accepted classes: "+
+      "str, CIGAR, Trace, AlignmentPlaceholder)")
   alignment.validate()
 
 def unsafe_encode(obj):
